@@ -13,6 +13,9 @@
 //! * vs the property itself (`spec_fail`): a Rust reference dispatch (implementation declared for the
 //!   concrete type, method with the called name).
 use vh::*;
+#[path = "../bg8_probes.rs"]
+mod bg8_probes;
+use bg8_probes::{Probe, Want, run_probes};
 
 #[derive(Clone)]
 struct CT {
@@ -82,7 +85,11 @@ fn gclone(a: T Clone) -> T Clone { Clone.clone(a) }\n";
 /// `Num` for a user type (kept apart: today the arithmetic operators on it panic the compiler)
 const NUM: &str = "implement Num for Sc {\n  fn add(a, b) {\n    println(\"Num.Sc.add\")\n    Sc(a.v + b.v)\n  }\n  fn subtract(a, b) {\n    println(\"Num.Sc.subtract\")\n    Sc(a.v - b.v)\n  }\n  fn multiply(a, b) {\n    println(\"Num.Sc.multiply\")\n    Sc(a.v * b.v)\n  }\n  fn divide(a, b) {\n    println(\"Num.Sc.divide\")\n    Sc(a.v / b.v)\n  }\n  fn power(a, b) {\n    println(\"Num.Sc.power\")\n    Sc(a.v ^ b.v)\n  }\n}\n\
 fn gadd(a: T Num, b: T Num) -> T Num { a + b }\n\
-fn gmul(a: T Num, b: T Num) -> T Num { a * b }\n";
+fn gmul(a: T Num, b: T Num) -> T Num { a * b }\n\
+fn gsub(a: T Num, b: T Num) -> T Num { a - b }\n\
+fn gdiv(a: T Num, b: T Num) -> T Num { a / b }\n\
+fn gpow(a: T Num, b: T Num) -> T Num { a ^ b }\n\
+type Hs = { s: Sc }\n";
 
 struct BCase {
     expr: &'static str,
@@ -111,6 +118,23 @@ fn builtin_cases(num: bool) -> Vec<BCase> {
         c("let r = gadd(Sc(1), Sc(2))", &["Num.Sc.add"][..], "Num", "add+subtract+multiply+divide+power", 0, true),
         c("let r = gmul(Sc(1), Sc(2))", &["Num.Sc.multiply"][..], "Num", "add+subtract+multiply+divide+power", 2, true),
         c("let r = gadd(1, 2)", &[][..], "Num", "add+subtract+multiply+divide+power", 0, true),
+        // every Num operator on the user type, directly, in generic code and as compound assignment
+        // on a variable, a struct field and an array element
+        c("let r = Sc(6) - Sc(2)", &["Num.Sc.subtract"][..], "Num", "add+subtract+multiply+divide+power", 1, false),
+        c("let r = Sc(6) * Sc(2)", &["Num.Sc.multiply"][..], "Num", "add+subtract+multiply+divide+power", 2, false),
+        c("let r = Sc(2) ^ Sc(3)", &["Num.Sc.power"][..], "Num", "add+subtract+multiply+divide+power", 4, false),
+        c("let r = gsub(Sc(6), Sc(2))", &["Num.Sc.subtract"][..], "Num", "add+subtract+multiply+divide+power", 1, true),
+        c("let r = gdiv(Sc(6), Sc(2))", &["Num.Sc.divide"][..], "Num", "add+subtract+multiply+divide+power", 3, true),
+        c("let r = gpow(Sc(2), Sc(3))", &["Num.Sc.power"][..], "Num", "add+subtract+multiply+divide+power", 4, true),
+        c("let r = gpow(2, 3)", &[][..], "Num", "add+subtract+multiply+divide+power", 4, true),
+        c("var cv1 = Sc(6)\ncv1 += Sc(1)", &["Num.Sc.add"][..], "Num", "add+subtract+multiply+divide+power", 0, false),
+        c("var cv2 = Sc(6)\ncv2 -= Sc(1)", &["Num.Sc.subtract"][..], "Num", "add+subtract+multiply+divide+power", 1, false),
+        c("var cv3 = Sc(6)\ncv3 *= Sc(2)", &["Num.Sc.multiply"][..], "Num", "add+subtract+multiply+divide+power", 2, false),
+        c("var cv4 = Sc(6)\ncv4 /= Sc(2)", &["Num.Sc.divide"][..], "Num", "add+subtract+multiply+divide+power", 3, false),
+        c("let hs1 = Hs(Sc(6))\nhs1.s += Sc(1)", &["Num.Sc.add"][..], "Num", "add+subtract+multiply+divide+power", 0, false),
+        c("let hs2 = Hs(Sc(6))\nhs2.s /= Sc(2)", &["Num.Sc.divide"][..], "Num", "add+subtract+multiply+divide+power", 3, false),
+        c("let ae1 = [Sc(6), Sc(7)]\nae1[1] -= Sc(1)", &["Num.Sc.subtract"][..], "Num", "add+subtract+multiply+divide+power", 1, false),
+        c("let ae2 = [Sc(6), Sc(7)]\nae2[0] *= Sc(2)", &["Num.Sc.multiply"][..], "Num", "add+subtract+multiply+divide+power", 2, false),
         c("let r = \"a\" .. Sc(1)", &["ToString.Sc.str"][..], "ToString", "str", 0, false),
         c("let r = gstr(Sc(1))", &["ToString.Sc.str"][..], "ToString", "str", 0, true),
         c("let r = gstr(7)", &[][..], "ToString", "str", 0, true),
@@ -134,6 +158,27 @@ struct Case {
     what: String,
     /// a prelude implementation must run (nothing is printed): only checked against the reference
     prelude: bool,
+    /// operator cases: the model request `monoop <operator> <compound>` and the interface's methods
+    op_req: Option<(String, String)>,
+}
+
+/// which operator (model name, compound?) a builtin-interface case exercises
+fn operator_of(expr: &str) -> Option<(&'static str, bool)> {
+    for (sym, name) in [(" += ", "add"), (" -= ", "sub"), (" *= ", "mul"), (" /= ", "div")] {
+        if expr.contains(sym) {
+            return Some((name, true));
+        }
+    }
+    for (sym, name) in [
+        (" == ", "eq"), (" <= ", "le"), (" >= ", "ge"), (" < ", "lt"), (" > ", "gt"), (" + ", "add"), (" - ", "sub"),
+        (" * ", "mul"), (" / ", "div"), (" ^ ", "pow"), (" .. ", "concat"),
+        ("geq(", "eq"), ("glt(", "lt"), ("gge(", "ge"), ("gadd(", "add"), ("gmul(", "mul"), ("gsub(", "sub"), ("gdiv(", "div"), ("gpow(", "pow"),
+    ] {
+        if expr.contains(sym) {
+            return Some((name, false));
+        }
+    }
+    None
 }
 
 struct Prog {
@@ -216,6 +261,7 @@ fn gen_prog(rng: &mut Rng, idx: usize) -> Prog {
             expect: format!("impl={k} method={m}"),
             what: format!("{form} call `{expr}` on {} (implementation {k} declares {:?})", c.name, impl_orders[k]),
             prelude: false,
+            op_req: None,
         });
     }
     // closures in generic functions: each chosen form at 2-3 different implementations
@@ -246,6 +292,7 @@ fn gen_prog(rng: &mut Rng, idx: usize) -> Prog {
                 expect: format!("impl={k} method={m}"),
                 what: format!("{form} call `{expr}` on {} (implementation {k} declares {:?})", c.name, impl_orders[k]),
                 prelude: false,
+                op_req: None,
             });
             q += 1;
         }
@@ -279,6 +326,7 @@ fn gen_prog(rng: &mut Rng, idx: usize) -> Prog {
                 expect: format!("impl={pos} method={mname}"),
                 what: format!("builtin interface {} via `{}`; expected tags {:?}", b.iface, b.expr, b.expect),
                 prelude: pos != 3,
+                op_req: if pos == 3 { operator_of(b.expr).map(|(o, c)| (format!("monoop {o} {} #{}", c as u8, b.iface), b.methods.to_string())) } else { None },
             });
             q += 1;
         }
@@ -288,6 +336,9 @@ fn gen_prog(rng: &mut Rng, idx: usize) -> Prog {
             ("let bag = Bag([7, 8])\nprintln(\"#Q\")\nlet r = bag[1]\n", "Index", "index_get+index_set", 0usize, "Index.Bag.index_get"),
             ("println(\"#Q\")\nbag[0] = 5\n", "Index", "index_get+index_set", 1, "Index.Bag.index_set"),
             ("println(\"#Q\")\nfor it in bag {\n  let u = it\n}\n", "Iterable", "make_iterator", 0, "Iterable.Bag.make_iterator"),
+            // compound assignment through the user Index: index_get runs first (index_set after it)
+            ("println(\"#Q\")\nbag[1] += 5\n", "Index", "index_get+index_set", 0, "Index.Bag.index_get"),
+            ("println(\"#Q\")\nbag[0] *= 2\n", "Index", "index_get+index_set", 0, "Index.Bag.index_get"),
         ];
         for (code, iface, methods, midx, _tag) in items {
             let all = vec![methods; 2].join(";");
@@ -299,6 +350,7 @@ fn gen_prog(rng: &mut Rng, idx: usize) -> Prog {
                 expect: format!("impl=1 method={mname}"),
                 what: format!("builtin interface {iface} on a user container"),
                 prelude: false,
+                op_req: None,
             });
             q += 1;
         }
@@ -328,6 +380,51 @@ fn observe(lines: &[String], case: &Case) -> String {
     let m = first.rsplit('.').next().unwrap_or("?");
     let pos = if first.contains(".Bag.") { 1 } else { 3 };
     format!("impl={pos} method={m}")
+}
+
+
+macro_rules! w {
+    ($f:literal) => {
+        include_str!(concat!("../../probes_bg8/", $f))
+    };
+}
+
+/// constructs of the dispatch machinery outside the generated family; expected behaviour = what the
+/// hand-monomorphised program does (Rust-side oracle)
+fn fixed_probes() -> Vec<Probe> {
+    let p = |name, main, want| Probe { name, main, files: &[], want };
+    vec![
+        p("num-user-type-minus-power", w!("A_01.abra"), Want::Out("5\n6\n49\n729\n")),
+        p("num-user-type-compound-assign", w!("A_02.abra"), Want::Out("11 22\n8 19\n16 57\n4 3\n6 7\n30 40\n")),
+        p(
+            "user-index-compound-assign-order",
+            w!("A_03.abra"),
+            Want::Out("get 0,1\nset 0,1 := 7\n[ 1, 7, 3, 4 ]\nix\nget 1,0\nrhs\nset 1,0 := 30\n[ 1, 7, 30, 4 ]\nmk\nix\nget 1,0\nrhs\nset 1,0 := -7\nget 1,1\nset 1,1 := 2\nget 1,1\nset 1,1 := 0\n[ 1, 7, 30, 0 ]\n"),
+        ),
+        p(
+            "qualified-interface-calls-at-builtin-types",
+            w!("A_23.abra"),
+            Want::Out("-1\n-0.125\ntrue\nfalse\ntrue\ntrue\n3\ntrue\n3\n[ 9, 2, 3 ]\nnil\n20\n3\n1024\n3.75\n-0.75\n3\n0.25\n8\ntrue\nfalse\ntrue\n"),
+        ),
+        // D86 (cab8299): unary minus on a user Num type is a diagnostic
+        p("D86-unary-minus-user-num", w!("A_D1_unary_minus_user_num.abra"), Want::Rejected(&["Unary minus"])),
+        p("wildcard-annotations", w!("B_10.abra"), Want::Out("[ 1, 2, 3 ]\n(1, s)\n")),
+        p("type-qualified-channel-array-members", w!("B_12.abra"), Want::Out("9\n2\n")),
+        p("extend-void-bool-string-tuple", w!("B_17.abra"), Want::Out("void!\nfalse\nabab\n7\n")),
+        // D99: implement an interface for a function type, called through the interface name
+        p("D99-impl-for-function-type-qualified", w!("B_20.abra"), Want::NoCrash),
+        p("impl-for-function-type-generic", w!("B_20b.abra"), Want::Out("100\n")),
+        p("impl-for-channel", w!("B_42.abra"), Want::Out("chan\nchan\n")),
+        p("constraint-on-type-definition-parameter", w!("B_06.abra"), Want::Out("3\n")),
+        p("generic-at-never", w!("B_22.abra"), Want::RuntimeError("panic")),
+        p("impl-for-instantiated-array", w!("B_24.abra"), Want::Rejected(&["unless it has generic arguments"])),
+        p("impl-for-instantiated-struct", w!("B_29.abra"), Want::Rejected(&["unless it has generic arguments"])),
+        p("iterable-without-iterator-impl", w!("B_30.abra"), Want::Rejected(&["unable to determine `IterableItem`"])),
+        // D98: the item type of an unknown `T Iterator` must not unify with int
+        p("D98-output-type-of-constrained-variable", w!("B_31.abra"), Want::Rejected(&[])),
+        // D100: a for loop over a value of type `T Iterable`
+        p("D100-for-over-constrained-iterable", w!("B_46.abra"), Want::Out("3\n")),
+    ]
 }
 
 fn main() {
@@ -393,8 +490,18 @@ fn main() {
                 shown = true;
                 ctx.spec_fail(format!("{}: ran `{imp}` (output {:?}), the implementation declared for the type is `{}`{prog}", c.what, lines, c.expect));
             }
+            if let Some((oreq, methods)) = &c.op_req {
+                // the method the operator was lowered to, read off the tag the user implementation printed
+                let tag = lines.iter().find(|l| l.contains(".Sc.")).cloned().unwrap_or_default();
+                let mut it = tag.split('.');
+                let iface = it.next().unwrap_or("?").to_string();
+                let m = it.nth(1).unwrap_or("?").to_string();
+                let idx = methods.split('+').position(|x| x == m).map(|i| i.to_string()).unwrap_or("?".into());
+                ctx.case(oreq.clone(), format!("{iface} {m} {idx}"));
+            }
             ctx.case(c.req.clone(), imp);
         }
     }
+    run_probes(&mut ctx, &fixed_probes());
     ctx.finish();
 }
